@@ -8,9 +8,20 @@ def errStr : Err → String
 
 /-- `fwd first <disableCSV|-> <segs…>` / `fwd later <disableCSV|-> <segs…>`:
     the bytes queued to upstream for one request (`ok <hex>`), or `none`;
-    `fwd why first|later …` prints the reason instead (debugging aid) -/
+    `fwd why first|later …` prints the reason instead (debugging aid);
+    `fwd conn <disableCSV|-> <write…>`: the whole connection, write by write -/
 def drv (args : List String) : String :=
   match args with
+  | "conn" :: disable :: writes =>
+    -- `fwd conn <disableCSV|-> <write…>`: per client write, the bytes that reach the origin
+    let dis : Option (List Bytes) :=
+      if disable == "-" then some [] else (disable.splitOn ",").mapM unhex
+    match dis, Px.Parser.unhexAll writes with
+    | some dis, some ws =>
+      let cfg : Cfg := { disable := dis }
+      let r := Conn.feed cfg Conn.start ws
+      "ok " ++ " ".intercalate (r.1.map (fun es => hex (es.map Emit.bytes).flatten))
+    | _, _ => "bad-op"
   | "why" :: which :: disable :: segs =>
     let dis : Option (List Bytes) :=
       if disable == "-" then some [] else (disable.splitOn ",").mapM unhex
